@@ -242,7 +242,12 @@ func runC11(c *CaseCtx) (res CaseResult) {
 			}
 			o = DoConvert(in.W, types[tt], in.AllArgs(k, r))
 		case op == 4:
-			o = DoRedefine(in.W, pick(r, targets).Func, in.AllArgs(k, r))
+			ropts := in.AllArgs(k, r)
+			if r.Intn(2) == 0 {
+				// force the plan through the converters (incl. run-once ones)
+				ropts = append(ropts, am.FilterInput(inputTypesFilter(&s)))
+			}
+			o = DoRedefine(in.W, pick(r, targets).Func, ropts)
 			if len(o.Events) > 0 {
 				res.violate("C09", "executed-during-redefine", "bodies executed during Redefine: "+eventsStr(o.Events), det(""))
 			}
@@ -262,7 +267,15 @@ func runC11(c *CaseCtx) (res CaseResult) {
 			res.violate("C06", "panic/"+crashKey(o.Panic), "operation panicked: "+o.Panic, det(o.Panic))
 			continue
 		}
-		_ = n0
+		// every value any body received must stem from a real execution: a
+		// memo filled by anything but the first execution shows up as a value
+		// nobody produced
+		for _, msg := range checkBinding(in.W, o.Events, BindingOpts{MinSeq: n0, Via: viaOf(o, redefined)}) {
+			res.violate("C01", "binding/"+bindingKind(msg), "run-once history: "+msg, det(eventsStr(o.Events)))
+			if bindingKind(msg) == "fabricated" {
+				res.violate("C11", "value-from-no-execution", "a body received a value that no execution produced (poisoned run-once memo?): "+msg, det(eventsStr(o.Events)))
+			}
+		}
 		// which run-once functions did this operation need (observed through
 		// provenance of any argument, or through their error)?
 		used := map[int]bool{}
@@ -894,4 +907,16 @@ func runC12(c *CaseCtx) (res CaseResult) {
 	res.obs("family."+fam, 1)
 	res.Sample = map[string]interface{}{"scenario": s.String(), "goroutines": G, "rounds": rounds, "gomaxprocs": procs, "shared_options": len(sharedOpts)}
 	return res
+}
+
+
+// viaOf: the relabelling allowance for operations that may have gone through
+// a redefined function (all declared inputs of all redefined functions of the
+// history; a superset is sound).
+func viaOf(o Outcome, redefined []*am.Func) []Label {
+	var via []Label
+	for _, rf := range redefined {
+		via = append(via, declaredInputs(rf)...)
+	}
+	return via
 }
